@@ -15,7 +15,7 @@ VAL_CFG = "SPECIFICATION Spec\nINVARIANT Publish\nPOSTCONDITION Post\nCHECK_DEAD
 
 def shapes(rep):
     d = C.subdir('c04')
-    r = C.tlc('C04_Exact', GEN_CFG, env={'CASES': '/dev/null'}, out_name='cases.ndjson', tag='c04gen', timeout=600)
+    r = C.tlc('C04_Exact', GEN_CFG, env={'CASES': '/dev/null'}, out_name='cases.ndjson', tag='c04gen', timeout=3000)
     cases = r.out_path
     if not cases.exists():
         raise C.MachineryError('C04: generator produced no cases\n' + r.out[-2000:])
@@ -58,7 +58,7 @@ def frames(rep):
     else:
         sel = {'full': REPRESENTATIVES, 'small': [x for x in ALL_MODAL if x not in REPRESENTATIVES]}
     r = C.tlc('C04_Frames', GEN_CFG, env={'CASES': '/dev/null', 'SEL': _json_file(d, sel)}, out_name='cases.ndjson',
-              tag='c04fgen', timeout=600)
+              tag='c04fgen', timeout=3000)
     cases = r.out_path
     rep.add_tlc(r)
     n = sum(1 for _ in open(cases))
